@@ -141,10 +141,20 @@ func genInnerQuery(t *rapid.T, tb *Table, label string) (string, *Table) {
 		out.Cols = append(out.Cols, Col{Name: name, Kind: "num", Pool: []any{1.5, 2.0, 3.5, 5.0}})
 	}
 	star := rapid.IntRange(0, 4).Draw(t, label+".star") == 0
-	if star {
-		return fmt.Sprintf("SELECT * FROM %%s%s", where), &Table{Cols: append([]Col{}, tb.Cols...)}
+	// the inner query may sort its rows: the outer stage (e.g. the first-appearance order of its groups)
+	// must see that order whether the inner result is named or materialised
+	order := ""
+	if rapid.IntRange(0, 2).Draw(t, label+".order") == 0 {
+		oc := out.Cols[rapid.IntRange(0, len(out.Cols)-1).Draw(t, label+".ordercol")]
+		if star {
+			oc = tb.Cols[rapid.IntRange(0, len(tb.Cols)-1).Draw(t, label+".ordercolstar")]
+		}
+		order = " ORDER BY " + oc.Name + rapid.SampledFrom([]string{"", " DESC"}).Draw(t, label+".orderdir")
 	}
-	return fmt.Sprintf("SELECT %s FROM %%s%s", strings.Join(items, ", "), where), out
+	if star {
+		return fmt.Sprintf("SELECT * FROM %%s%s%s", where, order), &Table{Cols: append([]Col{}, tb.Cols...)}
+	}
+	return fmt.Sprintf("SELECT %s FROM %%s%s%s", strings.Join(items, ", "), where, order), out
 }
 
 // genOuterQuery draws Qo over a source with schema tb; prefix is "" or "x.". ordered reports whether
